@@ -265,7 +265,7 @@ Definition table : list meth := [
   mkMeth "formattedstore.formatStore.Batch" true
     []
     [mkCall "formattedstore.formatStore.generateFormattedOperationsUsingDeterministicKeys" []; mkCall "formattedstore.formatStore.generateFormattedOperationsUsingNonDeterministicKeys" [("formattedstore.formatStore.lock", true)]]
-    [mkSCall "formattedstore.formatStore.formatter" "UsesDeterministicKeyFormatting" []; mkSCall "formattedstore.formatStore.underlyingStore" "Batch" []]
+    [mkSCall "formattedstore.formatStore.formatter" "UsesDeterministicKeyFormatting" []; mkSCall "formattedstore.formatStore.underlyingStore" "Batch" [("formattedstore.formatStore.lock?", true)]]
     [mkAcq "formattedstore.formatStore.lock" true false []];
   mkMeth "formattedstore.formatStore.Close" true
     []
